@@ -177,3 +177,24 @@ V("c06-benign-check-use-after-alg", "C06", "benign", "", "check_use moved after 
 V("c06-benign-inline-check-key", "C06", "benign", "", "_check_key inlined into ECAlgModel.sign",
   "rfc7518/jws_algs.py", "        self._check_key(key)\n        op_key = key.get_op_key(\"sign\")",
   "        if key.curve_name != self.curve:\n            raise ValueError(\"wrong curve\")\n        op_key = key.get_op_key(\"sign\")")
+
+# ------------------------------------------------------------------------------------------------ C17
+V("c17-tail-only", "C17", "break", "R17.2", "completion assumed from unconsumed_tail alone",
+  "rfc7518/jwe_zips.py", "        if decompressor.unconsumed_tail or decompressor.decompress(b\"\", 1):", "        if decompressor.unconsumed_tail:")
+V("c17-unbounded", "C17", "break", "R17.1", "inflate without max_length",
+  "rfc7518/jwe_zips.py", "        value = decompressor.decompress(s, MAX_SIZE)", "        value = decompressor.decompress(s)")
+V("c17-huge-limit", "C17", "break", "R17.1", "MAX_SIZE raised to 250 MiB",
+  "rfc7518/jwe_zips.py", "MAX_SIZE = 250 * 1024", "MAX_SIZE = 250 * 1024 * 1024")
+V("c17-oneshot", "C17", "break", "R17.1", "one-shot zlib.decompress",
+  "rfc7518/jwe_zips.py", "        value = decompressor.decompress(s, MAX_SIZE)", "        value = zlib.decompress(s, -zlib.MAX_WBITS)")
+V("c17-slice-result", "C17", "break", "R17.5", "result silently cut to the limit",
+  "rfc7518/jwe_zips.py", "        return value\n", "        return value[:MAX_SIZE - 1]\n")
+V("c17-decompress-ciphertext", "C17", "break", "R17.4", "decompression applied to unauthenticated ciphertext",
+  "rfc7516/message.py", "        obj.plaintext = zip_.decompress(msg)", "        obj.plaintext = zip_.decompress(ciphertext)")
+V("c17-zlib-framed-output", "C17", "break", "R17.3", "compress keeps the zlib header and checksum",
+  "rfc7518/jwe_zips.py", "        return data[2:-4]", "        return data")
+V("c17-benign-eof", "C17", "benign", "", "completion established through eof",
+  "rfc7518/jwe_zips.py", "        if decompressor.unconsumed_tail or decompressor.decompress(b\"\", 1):", "        if decompressor.unconsumed_tail or not decompressor.eof:")
+V("c17-benign-rename", "C17", "benign", "", "locals renamed, second pull bound to a name",
+  "rfc7518/jwe_zips.py", "        value = decompressor.decompress(s, MAX_SIZE)\n        # all the input may have been consumed while output is still pending,\n        # try to pull one more byte to find out if the limit is exceeded\n        if decompressor.unconsumed_tail or decompressor.decompress(b\"\", 1):",
+  "        out = decompressor.decompress(s, MAX_SIZE)\n        more = decompressor.decompress(decompressor.unconsumed_tail, 1)\n        value = out\n        if more:")
